@@ -488,7 +488,9 @@ func (c04) Exec(r *kit.Run) {
 			return engine.Error(errors.New("simulated Go error in a predicate"))
 		}
 		// whatever the value: a panic in a predicate is an error of the goal
-		switch visits % 4 {
+		switch visits % 5 {
+		case 4:
+			panic(nil) // (with this module's language version recover() returns nil for it)
 		case 0:
 			panic("simulated panic in a predicate")
 		case 1:
